@@ -48,6 +48,25 @@ ASSUMPTIONS += [
     "prescribed order) are attributed to the finding KF-C15-D33 while it is open; any other deviation of "
     "such a response (e.g. a wrong level order) is a plain failure",
 ]
+ASSUMPTIONS += [
+    "name-collision stage (case key stage='extra_namespace binds names of data columns'): for a share of "
+    "the (formula, frame) cases the design is built again with an extra_namespace that ALSO binds 1..all "
+    "of the data columns the response expression names -- to an int / float / str scalar, an array, "
+    "list or pandas Series of the frame's length, or a function (random stream (seed, 'c15', 'collide', "
+    "frame, formula)); the response is judged by the same Spec.C15 predicates, evaluated on the CALLER's "
+    "frame (complete rows of the columns model_description(formula).var_names names, taken by the "
+    "harness, not read back from the design) with the int / str bindings in the spec's namespace: the "
+    "data frame is looked up first (Model/Design.lean lookupName; property C11's order), so the "
+    "response must be what the frame's columns give",
+    "re-evaluation stage (case key stage='second evaluation of one model description'; the lower-level "
+    "public entry point): for a share of the cases ONE model_description(formula) is evaluated twice, "
+    "formulae.matrices.DesignMatrices(model, frame 1, env) and then DesignMatrices(model, frame 2, env), "
+    "frame 2 being of the same length: a row permutation of frame 1, a permutation with the numeric "
+    "columns edited (y -> 1 - y, other trials), or a resample with repetition (levels may be lost); both "
+    "frames are cut to their complete rows in the used columns by the harness (what design_matrices "
+    "does); the SECOND response is judged by the same Spec.C15 predicates on the SECOND frame; a second "
+    "evaluation that raises is a failure unless design_matrices(formula, frame 2) raises as well",
+]
 TRUSTED = ["pandas dtype inference for the response column"]
 
 RESPONSES = ["y", "yc", "cu", "co", "yc[yes]", "yc['yes']", "yc[\"maybe\"]", "cu[m3]", "co[lo]",
@@ -217,6 +236,99 @@ def new_frames(r, df):
     return out
 
 
+def caller_frame(formula, df):
+    """the rows of the caller's frame that are complete in the columns the formula names (the NA step
+    of design_matrices, done here on the caller's frame)"""
+    import formulae
+    names = formulae.model_description(formula).var_names
+    sub = df[[c for c in df.columns if c in names]]
+    return sub[~sub.isna().any(axis=1).to_numpy()] if sub.shape[1] else sub
+
+
+def spec_request(formula, frame, names, rm):
+    """c15_spec request for the response matrix object `rm` against `frame`; -> (request, owner tail)"""
+    shape = [int(v) for v in np.shape(rm.design_matrix)]
+    levels = None if rm.levels is None else [str(x) for x in rm.levels]
+    return ({"op": "c15_spec", "formula": formula, "frame": designs.frame_json(frame),
+             "names": designs.names_json(names), "matrix": resp_mat(rm.design_matrix),
+             "shape": shape, "kind": rm.kind, "levels": levels}, (rm.kind, shape, levels))
+
+
+def colliding_namespace(r, df, cols):
+    """extra_namespace entries whose names are ALSO columns of the frame: scalars, arrays / lists /
+    Series of the frame's length, functions -> (bindings, description, the int / str ones)"""
+    n = len(df)
+    binds, told, plain = {}, {}, {}
+    for c in r.sample(cols, r.randrange(1, len(cols) + 1)):
+        k = r.randrange(8)
+        if k == 0:
+            v = r.choice([10, 1, 0, -3, 1000])
+            plain[c] = v
+        elif k == 1:
+            v = r.choice([2.5, 0.0, -1.5])
+        elif k == 2:
+            v = np.ones(n) * r.randrange(1, 9)
+        elif k == 3:
+            v = np.arange(n, 0, -1)
+        elif k == 4:
+            v = (lambda x, *a, **kw: x)
+        elif k == 5:
+            v = r.choice(["text", "yes", "a", ""])
+            plain[c] = v
+        elif k == 6:
+            v = [r.randrange(1, 30) for _ in range(n)]
+        else:
+            v = pd.Series([float(r.randrange(-5, 6)) for _ in range(n)])
+        binds[c] = v
+        told[c] = ("a function" if k == 4 else f"{type(v).__name__} {v!r}" if k in (0, 1, 5) else
+                   f"{type(v).__name__} of length {n}: {list(v)[:4]}...")
+    return binds, told, plain
+
+
+SECOND_FRAMES = ["permuted", "permuted, numeric columns edited", "resampled with repetition"]
+
+
+def second_frame(r, df, kind):
+    """another frame of the same length for the second evaluation of one model description"""
+    n = len(df)
+    if kind == "resampled with repetition":
+        idx = [r.randrange(n) for _ in range(n)]
+    else:
+        idx = list(range(n))
+        while n > 1 and idx == list(range(n)):
+            r.shuffle(idx)
+    d2 = df.iloc[idx].reset_index(drop=True).copy()
+    if kind == "permuted, numeric columns edited":
+        d2["y"] = 1 - d2["y"]
+        d2["n"] = [int(v) + r.randrange(1, 4) for v in d2["n"]]
+        d2["nbig"] = d2["n"] + 250
+        d2["x"] = d2["x"] + 1
+    return designs.scramble_index(r, d2)
+
+
+def reevaluate(formula, df1, df2, names):
+    """ONE model description evaluated on df1, then on df2, through DesignMatrices(model, frame, env)
+    -> (error class of the second evaluation or None, second design or None, frame 2 as passed)"""
+    import contextlib
+    import io
+    from formulae import model_description
+    from formulae.environment import Environment
+    from formulae.matrices import DesignMatrices
+    env = Environment.capture(0).with_outer_namespace(dict(designs.namespace(), **(names or {})))
+    model = model_description(formula)
+
+    def used(d):
+        sub = d[[c for c in d.columns if c in model.var_names]]
+        return sub[~sub.isna().any(axis=1).to_numpy()] if sub.shape[1] else sub
+    u2 = used(df2)
+    with contextlib.redirect_stdout(io.StringIO()):
+        DesignMatrices(model, used(df1), env)
+        try:
+            return None, DesignMatrices(model, u2, env), u2
+        except Exception as e:  # noqa
+            return type(e).__name__, None, u2
+
+
 def names_in(text):
     return set(re.findall(r"[A-Za-z_][A-Za-z_0-9]*", text))
 
@@ -230,7 +342,11 @@ def explore(tier, seed, res=None, replay=None):
                 "Categorical columns with and without a contrast / levels=) x right-hand sides x generated frames, "
                 "each frame also cut down to one row and to one complete row; every prop "
                 "response also evaluated on new frames shorter than, as long as and longer than the "
-                "training frame; plus non-single-term responses and formulas without a response; "
+                "training frame; one case in six built again with an extra_namespace that also binds names "
+                "of the data columns the response uses (the frame must win), one in six evaluated a "
+                "second time from ONE model description on another frame of the same length (second "
+                "response judged on the second frame); plus non-single-term responses and formulas "
+                "without a response; "
                 "non-trivial = a categorical, subset or prop response; distinct by (formula, frame "
                 "seed)" % (len(RESPONSES) + len(LEVEL_RESPONSES) + len(BOX_RESPONSES)))
     n_frames = 3 if tier == "quick" else 10
@@ -272,6 +388,7 @@ def explore(tier, seed, res=None, replay=None):
     news = {}
     base_cache = {}
     pred_reqs, pred_owners = [], []
+    judged = 0
     for formula, fi, variant in cases:
         if fi not in frames:
             frames[fi] = designs.gen_frame(rng_for(seed, "c15", "frame", fi))
@@ -316,6 +433,77 @@ def explore(tier, seed, res=None, replay=None):
                      "matrix": matrix, "shape": shape, "kind": rm.kind,
                      "levels": None if rm.levels is None else [str(x) for x in rm.levels]})
         owners.append((case, rm.kind, shape, None if rm.levels is None else [str(x) for x in rm.levels]))
+        stage = replay.get("stage", "") if replay is not None else ""
+        judged += 1
+        # name-collision stage: the same design with an extra_namespace that also binds names of data
+        # columns the response uses; the frame must win (own random stream per (frame, formula))
+        resp0 = formula.split(" ~ ", 1)[0]
+        cols = sorted(c for c in names_in(resp0) if c in df.columns)
+        if variant is None and cols and (stage.startswith("extra_namespace") if replay is not None
+                                         else judged % 6 == 0):
+            rc = rng_for(seed, "c15", "collide", fi, formula)
+            binds, told, plain = colliding_namespace(rc, df, cols)
+            ccase = dict(case, stage="extra_namespace binds names of data columns",
+                         extra_namespace_also_binds=told)
+            res.evaluations += 1
+            res.count("name_collision_runs")
+            err_c, dm_c = run(formula, df, dict(fnames[fi], **binds))
+            if err_c or dm_c.response is None:
+                res.failures.append({"case": ccase, "impl": err_c or "no response", "finding": None,
+                                     "expected": "the design built without these bindings (the data "
+                                                 "frame is looked up first)",
+                                     "why": "the design is refused / has no response when "
+                                            "extra_namespace also binds names of data columns"})
+            else:
+                try:
+                    rq, tail = spec_request(formula, caller_frame(formula, df),
+                                            dict(fnames[fi], **plain), dm_c.response)
+                    reqs.append(rq)
+                    owners.append((ccase,) + tail)
+                except Exception as e:  # noqa
+                    res.failures.append({"case": ccase, "impl": repr(e)[:200], "finding": None,
+                                         "expected": "a numeric array",
+                                         "why": "response.design_matrix is not an array of numbers"})
+        # re-evaluation stage: one model description, DesignMatrices twice, the second time on another
+        # frame of the same length; the second response is judged on the second frame
+        stateful = any(t in resp0 for t in ("center(", "scale(", "standardize("))
+        if variant is None and stateful and replay is None and judged % 6 == 3:
+            # a stateful transform keeps the parameters of its FIRST evaluation (property C06: frozen
+            # parameters); what its second evaluation on another frame must be is not part of C15
+            res.count("re-evaluation:not-judged (stateful transform in the response)")
+        elif variant is None and not stateful and (
+                stage.startswith("second evaluation") if replay is not None else judged % 6 == 3):
+            rv = rng_for(seed, "c15", "re-evaluation", fi, formula)
+            kind2 = rv.choice(SECOND_FRAMES)
+            df2 = second_frame(rv, df, kind2)
+            rcase = dict(case, stage="second evaluation of one model description (model_description + "
+                                     "DesignMatrices(model, frame, env) twice)", second_frame=kind2)
+            res.evaluations += 1
+            res.count("re-evaluations:" + kind2)
+            try:
+                err2, dm2, u2 = reevaluate(formula, df, df2, fnames[fi])
+            except Exception as e:  # noqa  (the FIRST evaluation through this entry point is refused)
+                err2, dm2, u2 = None, None, None
+                res.count("reevaluation_first_refused:" + type(e).__name__)
+            if err2 is not None:
+                e_fresh, _ = run(formula, df2, fnames[fi])
+                if e_fresh:
+                    res.count("reevaluation_refused_like_a_fresh_design:" + err2)
+                else:
+                    res.failures.append({"case": rcase, "impl": {"error": err2}, "finding": None,
+                                         "expected": "a design (design_matrices(formula, second frame) "
+                                                     "gives one)",
+                                         "why": "the second DesignMatrices(model, frame, env) on one "
+                                                f"model description raises {err2}"})
+            elif dm2 is not None and dm2.response is not None:
+                try:
+                    rq, tail = spec_request(formula, u2, fnames[fi], dm2.response)
+                    reqs.append(rq)
+                    owners.append((rcase,) + tail)
+                except Exception as e:  # noqa
+                    res.failures.append({"case": rcase, "impl": repr(e)[:200], "finding": None,
+                                         "expected": "a numeric array",
+                                         "why": "response.design_matrix is not an array of numbers"})
         res.count("retained_rows:" + ("1" if len(used) == 1 else "2+")
                   + ("" if variant is None else ":" + variant))
         resp, rhs = formula.split(" ~ ", 1)
